@@ -332,3 +332,12 @@ func (g *generation) posOfWorker(i int) int {
 func KeyGroupOf(keyGroups int, key string) int {
 	return int(partitioning.NewKeySpace(keyGroups, 1).KeyGroup([]byte(key)))
 }
+
+// ForgetRetention: no retention round is outstanding as far as WaitRetention is concerned (a snapshot write that
+// the job gave up after it had been handed to the storage adapter is followed by none).
+func (c *Cluster) ForgetRetention() {
+	g := c.cur()
+	g.mu.Lock()
+	g.expectRetain = g.gotRetain
+	g.mu.Unlock()
+}
